@@ -68,6 +68,11 @@ def actuator_scripts():
         for k, decl in enumerate(decls):
             lines = [decl] + [f"mon.write({g})" for g in GETTERS[kind]] + [FIRST_COMMAND[kind]] + [f"mon.write({g})" for g in GETTERS[kind]]
             out[f"{kind}/initial-queries/{k}"] = IMPORTS + "\n".join(lines) + "\n"
+    # a name re-bound to the same kind of device on other pins: from then on every command goes to the new pins
+    REDECL = {"Led": ("d = Led(5)", "d = Led(6)", ["d.on()", "d.set_brightness(77)", "d.toggle()"]), "RGBLed": ("d = RGBLed(9, 10, 11)", "d = RGBLed(3, 7, 8)", ["d.set_color(10, 20, 30)", "d.off()", "d.on(1, 2, 3)"])}
+    for kind, (d1, d2, cmds) in REDECL.items():
+        out[f"{kind}/redeclared-on-other-pins"] = IMPORTS + "\n".join([d1] + cmds + ["mon.write('--')", d2] + cmds + ["mon.write('--')"]) + "\n"
+        out[f"{kind}/redeclared-on-other-pins/in-loop"] = IMPORTS + d1 + "\n" + cmds[0] + "\nwhile True:\n" + "\n".join("    " + c for c in [d2] + cmds + [d1.replace("d = ", "d = ")] + cmds[:1]) + "\n    sleep(1)\n"
     for kind, groups in COMMANDS.items():
         for gname, cmds in groups.items():
             lines = [DECL[kind]]
